@@ -147,9 +147,17 @@ def r4_inverse_navigation(ctx, res):
         res.find(key, ws.module.loc(ws.node), 'get_entry_senses / get_synset_members no longer select by entry / synset rowid respectively')
 
 
+def r5_scope_family(ctx, res):
+    """inverse navigations agree only if an element and the elements reachable from it compute the same family scope:
+    own lexicon + all extension bases + all extensions, in both directions (= C04-R4)."""
+    from .c04 import r4_default_formula
+    r4_default_formula(ctx, res)
+
+
 RULES = [
     ('C10-R1', r1_navigation, 30),
     ('C10-R2', r2_eq_hash, 12),
     ('C10-R3', r3_translate_guard, 3),
     ('C10-R4', r4_inverse_navigation, 5),
+    ('C10-R5', r5_scope_family, 3),
 ]
